@@ -583,6 +583,13 @@ def search(chk, tie):
             greq.append({"gate": g, "params": dict(zip(ps, vals))})
     # ---- (b) programs: entangle -> gate on an ordered subset, compared with the documented congruence
     progs = []   # (what, case)
+    corpus = os.path.join(common.VERIF, "harness", "corpus", "c07.jsonl")
+    if os.path.exists(corpus):   # minimised past disagreements, run first
+        import json
+        for line in open(corpus):
+            if line.strip():
+                c = json.loads(line)
+                progs.append(("corpus", {"d": c["d"], "hbar": c["hbar"], "ops": c["ops"]}))
     subsets = [(d, m) for d in range(1, 6) for m in ordered_subsets(d)]
     if not T:
         subsets = [x for x in subsets if x[0] <= 3] + rng.sample([x for x in subsets if x[0] > 3], 50)
@@ -650,6 +657,13 @@ def search(chk, tie):
     neval = 0
     K2 = lambda n: np.diag([1.0] * n + [-1.0] * n)
     # (a)
+    seen_block = set()
+
+    def block_violation(key, what, witness):
+        if key not in seen_block:
+            seen_block.add(key)
+            chk.violation(key, what, witness)
+
     for q, r in zip(greq, res["blocks"]):
         neval += 1
         P = _c(r["P"])
@@ -659,12 +673,12 @@ def search(chk, tie):
         scale = 1 + np.abs(S).max() ** 2
         err = np.abs(S @ K2(n) @ S.conj().T - K2(n)).max()
         if not err <= 1e-9 * scale:
-            chk.violation("C07:%s:block-not-%s" % (q["gate"], "unitary" if A is None else "symplectic"),
+            block_violation("C07:%s:block-not-%s" % (q["gate"], "unitary" if A is None else "symplectic"),
                           "S K S^dagger != K for the gate's ladder-operator matrix", {"gate": q["gate"], "params": q["params"], "error": float(err)})
         dP, dA = doc_blocks(q["gate"], q["params"])
         errd = np.abs(P - dP).max() + (0 if A is None else np.abs(A - dA).max())
         if not errd <= 1e-9 * (1 + np.abs(dP).max() + max(1.0, max(abs(v) for v in q["params"].values()) if q["params"] else 1.0) * 1e-6):
-            chk.violation("C07:%s:block-not-as-documented" % q["gate"],
+            block_violation("C07:%s:block-not-as-documented" % q["gate"],
                           "the gate's ladder-operator blocks differ from the documented matrix",
                           {"gate": q["gate"], "params": q["params"], "error": float(errd),
                            "got_P": cl(P), "documented_P": cl(dP)})
@@ -678,8 +692,14 @@ def search(chk, tie):
     # the programs of the tie, against the same reference (concrete inputs for a broken correspondence)
     if tie:
         for c, r in tie:
-            neval += 1
             ops = [o[0] for o in c["ops"]]
+            # a direct _apply_linear call with arbitrary blocks is a congruence only if P A^T is
+            # symmetric (second symplectic condition; C07_update_is_congruence) and it leaves G
+            # non-symmetric otherwise: such raw calls are inputs outside the property and are only compared with the model, above
+            if any(o["k"] == "raw"
+                   and not np.allclose(_c(o["P"]) @ _c(o["A"]).T, (_c(o["P"]) @ _c(o["A"]).T).T) for o in ops):
+                continue
+            neval += 1
             em, ec = seq_error(c["d"], float(c["hbar"]), ops, r)
             if max(em, ec) > 1:
                 cc = {"d": c["d"], "hbar": float(c["hbar"]), "ops": ops}
